@@ -133,10 +133,10 @@ PROPS = {
         level_note=COMMON_NOTE,
     ),
     'C17': dict(
-        components=[(S, 'frame_scan', {}), b('purity')],
+        components=[(S, 'frame_scan', {}), ('kani', 'pattern_raw', {}), b('purity')],
         level='other',
         explanation='Sequential half: every function under contract has a postcondition result = spec(arguments), a history-free function. The schedule quantifier is not decided by this family (Kani has no threads, Verus cannot model std::thread); a differential run (orders, clones, 8 threads) is the only dynamic evidence.',
-        level_text='Frame obligation (syntactic, whole crate): no construct through which &self code could mutate shared state exists in library code outside the guarded hooks (interior mutability, statics, thread-locals, const->mut casts, pointer writes) — so, by Rust\'s aliasing rules, every search is a function of the searcher and its input. The schedule quantifier itself is not decided by this family; a differential run (orders, clones, in-place modified buffers, 8 threads) is the only dynamic evidence.',
+        level_text='Frame obligation (syntactic, whole crate): no construct through which &self code could mutate shared state exists in library code outside the guarded hooks (interior mutability, statics, thread-locals, const->mut casts, pointer writes) — so, by Rust\'s aliasing rules, every search is a function of the searcher and its input. The schedule quantifier itself is not decided by this family; a differential run (orders, clones, in-place modified buffers, relocated haystacks, 8 threads) is the only dynamic evidence; the raw-pointer compare of the packed searchers is checked by Kani to be a function of the bytes at every offset of the window in its object.',
         level_note='Data-race freedom of a Sync value shared by & is Rust\'s soundness theorem (assumed).',
     ),
     'C18': dict(
